@@ -11,8 +11,12 @@ map to the Cpuid/Xgetbv constructors, and translate() of the hook and of the pla
 must produce the same lists (checked by the caller)."""
 import os, re, subprocess
 
-REG64 = {"rax": "RAX", "rbx": "RBX", "rcx": "RCX", "rdx": "RDX", "rsi": "RSI", "rdi": "RDI"}
-REG32 = {"eax": "RAX", "ebx": "RBX", "ecx": "RCX", "edx": "RDX", "esi": "RSI", "edi": "RDI"}
+_R = ["rax", "rbx", "rcx", "rdx", "rsi", "rdi", "rbp"] + ["r%d" % i for i in range(8, 16)]
+REG64 = {r: r.upper() for r in _R}
+REG32 = dict({"eax": "RAX", "ebx": "RBX", "ecx": "RCX", "edx": "RDX", "esi": "RSI", "edi": "RDI", "ebp": "RBP"},
+             **{"r%dd" % i: "R%d" % i for i in range(8, 16)})
+REG8 = dict({"al": "RAX", "bl": "RBX", "cl": "RCX", "dl": "RDX", "sil": "RSI", "dil": "RDI", "bpl": "RBP"},
+            **{"r%db" % i: "R%d" % i for i in range(8, 16)})      # low bytes only (no ah/bh/ch/dh)
 HOOKS = {"isal_verif_cpuid": "Cpuid", "isal_verif_xgetbv": "Xgetbv"}
 
 
@@ -119,9 +123,18 @@ def trans_insn(o, k, lo, hi):
         return "Store %s %s" % (q(tgt[1]), REG64[ops[1]])
     if mn == "xor" and len(ops) == 2 and ops[0] in REG32 and ops[0] == ops[1] and rel is None:
         return "XorSelf %s" % REG32[ops[0]]
-    if mn in ("and", "test", "cmp") and len(ops) == 2 and ops[0] in REG32 and imm(ops[1]) is not None \
+    if mn in ("and", "or", "xor", "test", "cmp") and len(ops) == 2 and ops[0] in REG32 and imm(ops[1]) is not None \
             and imm(ops[1]) < 2 ** 32 and rel is None:
         return "%sRI %s %d" % (mn.capitalize(), REG32[ops[0]], imm(ops[1]))
+    if mn in ("and", "test", "cmp") and len(ops) == 2 and ops[0] in REG8 and imm(ops[1]) is not None \
+            and imm(ops[1]) < 256 and rel is None:
+        return "%sRI8 %s %d" % (mn.capitalize(), REG8[ops[0]], imm(ops[1]))
+    if mn in ("and", "or", "xor", "test") and len(ops) == 2 and ops[0] in REG32 and ops[1] in REG32 and rel is None:
+        return "%sRR %s %s" % (mn.capitalize(), REG32[ops[0]], REG32[ops[1]])
+    if mn == "test" and len(ops) == 2 and ops[0] in REG8 and ops[1] in REG8 and rel is None:
+        return "TestRR8 %s %s" % (REG8[ops[0]], REG8[ops[1]])
+    if mn == "not" and len(ops) == 1 and ops[0] in REG32 and rel is None:
+        return "NotR %s" % REG32[ops[0]]
     if mn in ("je", "jne", "jmp") and len(ops) == 1 and re.fullmatch(r"[0-9a-f]+", ops[0]) and rel is None:
         a = int(ops[0], 16)
         if a in o.idx and lo <= o.idx[a] < hi:
